@@ -77,10 +77,11 @@ Theorem cached_ast_is_exact :
               In t (t0 :: texts_of evs).
 Proof. intros. eapply cache_exact_l; eauto. Qed.
 
-(** The checker can panic while it lowers one chunk in the context an earlier analysis left (observed before the
-    repair 58948d36, when quick_check_file lowered a chunk against a cache that an inexact diff had corrupted:
-    `... has qvar`, corpus/C29/w3).  That the checker does not panic is property C07, not this one: theorems 6 and 7
-    carry it as the hypothesis [lower_total lower].  It is needed: *)
+(** KNOWN FINDING C29-quick-check-panics (known/C29.json, corpus/C29/k2).  The checker can panic while it lowers ONE
+    chunk in the context an earlier analysis left (`(lhs: ?L, rhs: ?R) -> ?L.Output has qvar` for a function whose
+    body uses a variable of failed type), although a fresh analysis of the same text does not: the didChange handler
+    (quick_check_file: HIRDiff::new, HIRDiff::fix) then panics.  The guard of theorems 6 and 7 is
+    [Known_C29 = lower_total lower]: lowering a chunk does not panic.  In the model: *)
 Theorem quick_check_lower_panic_refuted :
   run wp_lower w_name w_name w_failed text w_check w_full_hir true (open text w_check w_full_hir w2_t0 [])
       [EChange true [(1, 0); (2, 1)]; EChange true [(1, 0); (2, 2)]] = Panic.
